@@ -283,6 +283,11 @@ func render(sc Script, prog string) string {
 			sb.WriteString("exec sleep 1000 &\npids\n")
 		case "fail":
 			sb.WriteString("exists no-such-file\n")
+		case "bgfail":
+			// a background command that exits on its own with a status the script does not accept
+			sb.WriteString("exec false &\n")
+		case "wait":
+			sb.WriteString("wait\n")
 		case "skip":
 			sb.WriteString("skip\n")
 		case "stop":
